@@ -82,6 +82,7 @@ fn main() {
         "C04" => dispatch(&NetEngine { prop: NetProp::C04 }, &mode),
         "C12" => dispatch(&engines::snapxfer::XferEngine, &mode),
         "C13" => dispatch(&engines::snapsync::SyncEngine, &mode),
+        "C20" => dispatch(&engines::multi::MultiEngine, &mode),
         _ => {
             eprintln!("unknown property {}", prop);
             2
